@@ -355,6 +355,19 @@ def gen_worker_script(rs: int, knobs: Optional[dict] = None) -> dict:
     return script
 
 
+def tier_knobs(knobs: dict, tier: str, index: int) -> dict:
+    """Thorough tier: every fifth run is three times as long (more messages), every seventh has more workers."""
+    kn = dict(knobs)
+    if tier == "thorough":
+        base = {**DEFAULT_KNOBS, **kn}
+        if index % 5 == 0:
+            lo, hi = base["n_msgs"]
+            kn["n_msgs"] = (lo, max(hi, min(48, hi * 3)))
+        if index % 7 == 0 and 3 in base["workers"]:
+            kn["workers"] = [2, 3, 3]
+    return kn
+
+
 def gen_trigger(r: Any, op: dict, n_msgs: int, last_us: int, crash: bool = False) -> dict:
     c = r.randint(0, 9)
     if c <= 2:
